@@ -261,10 +261,59 @@ def check_all(ctx, out):
     out.inst("C11.all", n, 7, samples)
 
 
+SHAPES = {
+    "blockwatch::validators::SimpleDiagnostic": ["range", "code", "message", "severity", "data"],
+    "blockwatch::validators::ViolationRange": ["start", "end"],
+    "blockwatch::Position": ["line", "character"],
+}
+
+
+def check_shape(ctx, out):
+    """JSON keys of a diagnostic (derived Serialize impls, read from the expanded MIR): each key is
+    written from the struct field of the same name; `data` is the only optional key."""
+    n = 0
+    for ty, want in SHAPES.items():
+        bodies = [b for b in ctx.facts.bodies.values() if b.promoted is None and re.search(r"Serialize for %s(<'a>)?>::serialize$" % re.escape(ty), b.id)]
+        if len(bodies) != 1:
+            out.viol("C11.shape", "C11.shape|%s|impl" % ty, "-", "expected one derived Serialize impl for %s, found %d" % (ty, len(bodies)))
+            continue
+        b = bodies[0]
+        got = []
+        skips = []
+        for bi, t in b.calls():
+            if callee_matches(t, r"ser::SerializeStruct::serialize_field$"):
+                k = util.const_val(ctx, b, t["args"][1])
+                labs = ctx.prov.read_operand(b, t["args"][2])
+                src = {l[2][0] for l in labs if l[0] == "param" and l[1] == 1 and l[2]}
+                got.append(k)
+                if src != {k}:
+                    out.viol("C11.shape", "C11.shape|%s|%s|source" % (ty, k), ctx.where(b), "JSON key `%s` of %s is written from field(s) %s" % (k, ty.split("::")[-1], sorted(src)))
+            elif callee_matches(t, r"ser::SerializeStruct::skip_field$"):
+                skips.append(util.const_val(ctx, b, t["args"][1]))
+        if got == want and set(skips) <= {"data"}:
+            n += len(want)
+        else:
+            out.viol("C11.shape", "C11.shape|%s|keys" % ty, ctx.where(b), "%s serialises the keys %s (optional: %s); documented: %s (only `data` optional)" % (ty.split("::")[-1], got, skips, want))
+    # the diagnostic is built from the violation's own fields
+    sd = ctx.facts.body("blockwatch::validators::Violation::as_simple_diagnostic")
+    if sd is not None:
+        ok = True
+        for f in ("range", "code", "message", "severity", "data"):
+            labs = ctx.prov.read_local(sd, 0, (f,))
+            src = {l[2][0] for l in labs if l[0] == "param" and l[2]}
+            if src != {f}:
+                ok = False
+                out.viol("C11.shape", "C11.shape|as_simple_diagnostic|%s" % f, ctx.where(sd), "diagnostic field `%s` is taken from violation field(s) %s" % (f, sorted(src)))
+        if ok:
+            n += 1
+    out.inst("C11.shape", n, 10, ["SimpleDiagnostic{range,code,message,severity,data?}, ViolationRange{start,end}, Position{line,character}"], exhaustive=True)
+
+
 def run(ctx, out, tier):
     check_exit(ctx, out)
     check_severity(ctx, out)
     check_all(ctx, out)
+    check_shape(ctx, out)
     bodies = ctx.reachable_bodies()
     shared.sh_merge(ctx, out, bodies)
     dv = detect_fn(ctx)
